@@ -279,6 +279,23 @@ func replaySchedules() []*c03lib.Session {
 		all = append(all, s)
 	}
 	all = runSessions("sched", all)
+	// absence of an expected operation is judged only after a retry with a
+	// ten times longer wait
+	var retry []*c03lib.Session
+	var retryIdx []int
+	for i, s := range all {
+		if strings.Contains(s.Diverge, "never arrived") {
+			cp := &c03lib.Session{Cfg: s.Cfg, Steps: s.Steps, Sched: s.Sched, WaitMs: 50000}
+			retry = append(retry, cp)
+			retryIdx = append(retryIdx, i)
+		}
+	}
+	if len(retry) > 0 && len(retry) <= 40 {
+		fmt.Fprintf(os.Stderr, "[replay] retrying %d schedules that timed out with a 50 s wait\n", len(retry))
+		for j, s := range runSessions("sched-retry", retry) {
+			all[retryIdx[j]] = s
+		}
+	}
 	for i, s := range all {
 		sj := scheds[i]
 		step := s.Steps[0]
@@ -370,7 +387,10 @@ func randomSessions() []*c03lib.Session {
 			c.Class(cl)
 		}
 		if len(s.Panics) > 0 {
+			// reported; the rest of such a session runs on a damaged rule slice
+			// and is not trace-validated
 			reportPanics(s)
+			continue
 		}
 		out = append(out, s)
 	}
@@ -462,12 +482,19 @@ func runChild(name string, job c03lib.Job) ([]c03lib.ChildLine, string) {
 	return lines, stderr
 }
 
+// panicInSwap: the panic happened in gqlparser's Validate / RemoveRule /
+// ReplaceRule called from executor.parseQuery of an executor with
+// SetDisableSuggestion(true) - the damaged global rule slice.
+func panicInSwap(s *c03lib.Session, p string) bool {
+	return s.Cfg.Sugg && strings.Contains(p, "executor.(*Executor).parseQuery") &&
+		(strings.Contains(p, "validator.Validate(") || strings.Contains(p, "validator.RemoveRule(") || strings.Contains(p, "validator.ReplaceRule("))
+}
+
 // reportPanics classifies panics that left gqlgen during a session.
 func reportPanics(s *c03lib.Session) {
 	for _, p := range s.Panics {
-		inValidate := strings.Contains(p, "validator.Validate(") && strings.Contains(p, "executor.(*Executor).parseQuery")
 		switch {
-		case inValidate && s.Cfg.Sugg:
+		case panicInSwap(s, p):
 			violateOnce(keyPanic, "a request panicked inside validator.Validate called from executor.parseQuery (nil RuleFunc in the global rule slice after concurrent RemoveRule/ReplaceRule)\nconfiguration: "+jsonStr(s.Cfg)+"\n"+tailStr(p, 1800), s)
 		case strings.Contains(firstFrame(p), "verifharness/"):
 			vlib.Infra("panic in harness code:\n%s", p)
